@@ -106,6 +106,27 @@ def parseCallbacks : Nat → List String → Option (List Callback)
             send := if s.isEmpty then [] else [s], next := none } :: cbs)
   | _, _ => none
 
+/-- units of a scripted operation: `g T` (GetPrompt), `s T strip cmd` (SendInput), `i T n events…`
+    (SendInteractive); returns the programs and the unread tokens -/
+def parseUnits (cfg : Cfg) (re : Rx.Re) : Nat → List String → Option (List (Prog Bytes))
+  | 0, _ => some []
+  | n + 1, "g" :: T :: rest => do
+    let T ← T.toNat?
+    let us ← parseUnits cfg re n rest
+    pure (getPromptP cfg (findWith re) T :: us)
+  | n + 1, "s" :: T :: strip :: cmd :: rest => do
+    let T ← T.toNat?
+    let cmd ← fromHex cmd
+    let us ← parseUnits cfg re n rest
+    pure (sendInputP { cfg with strip := s2b strip } cmd T :: us)
+  | n + 1, "i" :: T :: m :: rest => do
+    let T ← T.toNat?
+    let m ← m.toNat?
+    let (es, rest') ← parseEvents m rest
+    let us ← parseUnits cfg re n rest'
+    pure (interactiveP cfg [] es (some T) [] :: us)
+  | _, _ => none
+
 end C05
 open C05
 
@@ -176,6 +197,35 @@ def handleC05 : List String → String
         let prog := rpcOpP [] (fun rb => Rx.isMatch re rb) (T : Nat) ((Gen.Util.MaxTimeout : Nat) * 1000)
           Gen.Netconf.defaultTimeout source
         showAns (answer .rpc d prog fulls deliv k)
+      | "sq", depth :: ret :: wrap :: nunits :: rest =>
+        -- a scripted network-driver operation over the three-level device: the first `wrap`
+        -- units are an implicit acquire whose failure is reported as privilege error (0: none,
+        -- errors pass through); `T` in the header is unused (every unit carries its own)
+        match depth.toNat?, fromHex ret, wrap.toNat?, nunits.toNat? with
+        | some dp, some ret, some w, some n =>
+          let cfg := rxCfg Gen.Rx.C05.joinedThree dp false true ret
+          match parseUnits cfg Gen.Rx.C05.joinedThree n rest with
+          | some us =>
+            if w == 0 then showAns (answer .sendInput d (seqP us) fulls deliv k)
+            else
+              let acq : Prog Unit := (seqP (us.take w)).bind fun _ => .ret ()
+              let cmdP := seqP (us.drop w)
+              let r := networkSendCommand d acq cmdP (mkSt deliv)
+              let model := showExcept r.1
+              let spec : Option String :=
+                match specWalk acq fulls k with
+                | none => none
+                | some (.ok _, ss, k', _) =>
+                  match specWalk cmdP ss k' with
+                  | none => none
+                  | some (o, _, _, _) => some (showExcept (wrapAcquire (.ok ()) (toPublic .sendInput o)))
+                | some (o, _, _, _) =>
+                  some (showExcept (wrapAcquire (toPublic .getPrompt o) (.error .other)))
+              match spec with
+              | none => showAns ⟨false, "-", model, r.2.now, r.2.deadline⟩
+              | some sp => showAns ⟨true, sp, model, r.2.now, r.2.deadline⟩
+          | none => "bad-op"
+        | _, _, _, _ => "bad-op"
       | "cb", ret :: input :: n :: rest =>
         match fromHex ret, fromHex input, n.toNat? with
         | some ret, some input, some n =>
